@@ -36,6 +36,7 @@ REQUIRED_CLAUSES = ["failure-reaches-race-control", "never-success", "no-results
 KINDS = ["http-abort", "http-400-abort", "refused-continue", "params-raise", "partition-raise", "runner-keyerror", "runner-exception", "store-raises",
          "prepare-task-raises", "prepare-handler-raises", "worker-dies", "cancel", "timeout-abort"]
 REQUIRED_FEATURES = {"kind:" + k: 2 for k in KINDS}
+REQUIRED_FEATURES["driver-profiling-on"] = 5
 BUDGET = {"quick": {"cases": 1500, "seconds": 34}, "thorough": {"cases": 40000, "seconds": 700}}
 EXHAUSTIVE_WHOLE = False
 
@@ -219,8 +220,9 @@ def run_faulted(ctx, case, fault, problems):
     inj = Injector(fault)
     on_error = "abort" if fault["kind"] in ("http-abort", "http-400-abort", "timeout-abort") else "continue"
     run_case = dict(case, on_error=on_error, wall_deadline=_t.monotonic() + max(15.0, ctx.time_left() + 10.0))
+    extra = ["--enable-driver-profiling"] if fault.get("profiling") else []
     try:
-        tr = race.run_race(run_case, ctx.scratch, faults=inj.install, instrument=c01.instrument)
+        tr = race.run_race(run_case, ctx.scratch, extra_args=extra, faults=inj.install, instrument=c01.instrument)
         inj.was_fired = inj.fired()
     finally:
         inj.uninstall()
@@ -271,6 +273,9 @@ def points_for(case, base_tr, rng, exhaustive):
             if not exhaustive and rng.random() < 0.6:
                 continue
             faults.append({"kind": kind, "task": e["task"], "phys_client": e["client"], "client": idx, "ordinal": e["ordinal"]})
+            if (j + len(faults)) % 5 == 0:
+                # the same fault with the rarely used driver profiling switched on (every executor runs inside AsyncProfiler)
+                faults.append({"kind": kind, "task": e["task"], "phys_client": e["client"], "client": idx, "ordinal": e["ordinal"], "profiling": True})
     tasks = sorted({e["task"] for e in logical})
     for t in (tasks if exhaustive else tasks[:1]):
         faults.append({"kind": "partition-raise", "task": t})
@@ -333,6 +338,8 @@ def one_fault(ctx, case, fault, origin):
     problems = []
     tr, inj = run_faulted(ctx, case, fault, problems)
     feats = {"kind:" + fault["kind"], "origin:" + origin}
+    if fault.get("profiling"):
+        feats.add("driver-profiling-on")
     if tr.budget:
         ctx.feature("budget-exceeded")
         ctx.case([case["seed"], fault], False, ())
